@@ -575,6 +575,11 @@ def add_semantics_unit(res):
     return res
 
 
+def _loader_unit():
+    from .c15 import loader_unit
+    return loader_unit
+
+
 def _matcher_units():
     """the memory-operand matchers that decide which load/store table row fits an addressing mode (verified for C07; a row
     without index register must not match an indexed operand, ...): part of this check's closure"""
@@ -598,6 +603,7 @@ def units(tier):
         Unit("C08/get_load_throughput(any number of rows)", table_units("load"), "P", [(HW, "MachineModel.get_load_throughput"), (HW, "MachineModel._match_mem_entries")]),
         Unit("C08/get_store_throughput(any number of rows)", table_units("store"), "P", [(HW, "MachineModel.get_store_throughput"), (HW, "MachineModel._match_mem_entries")]),
     ] + _matcher_units() + [
+        Unit("C08/MachineModel.__init__(loader: load/store table rows keep type and pre/post-index flags)", _loader_unit(), "Pb", [(HW, "MachineModel.__init__")], decisive=False),
         Unit("C08/add_semantics(every line processed exactly once, any kernel length)", add_semantics_unit, "P", [(AS, "ArchSemantics.add_semantics")]),
         bounded_unit("C08/composition-vs-yaml-recomputation", "c08_compose", [(AS, "ArchSemantics.assign_tp_lt"), (AS, "ArchSemantics.add_semantics"), (HW, "MachineModel.__init__")], timeout=2400),
     ]
